@@ -381,6 +381,70 @@ def run_nuclear(ctx, model, scico):
                              oracle=lambda _c, v_=impl[1], fro=fro: {"what": "nuclear norm outside [||X||_F, sqrt(min(m,n)) ||X||_F]", "value": v_, "fro": fro})
 
 
+def run_l21_exhaustive(ctx, model, scico):
+    """exhaustive small scope for L21Norm(l2_axis=axes): every shape with axis sizes 1..3 of rank <= 2 (rank 3: sizes 1..2 in
+    the quick tier, 1..3 in the thorough tier) x every non-empty axes subset (given as int when a single axis, tuple otherwise,
+    and once more with negative axis numbers), fixed non-constant complex image - ties the grouping theorem C09_l21_axis_groups"""
+    import scico.functional as F
+    import scico.numpy as snp
+
+    shapes = [sh for r_ in (1, 2) for sh in itertools.product((1, 2, 3), repeat=r_)]
+    shapes += list(itertools.product((1, 2, 3) if ctx.thorough else (1, 2), repeat=3))
+    done = 0
+    for shape in shapes:
+        n = int(np.prod(shape))
+        a = ((((7 * np.arange(n) ** 2 + 3 * np.arange(n)) % 11) - 5.0) / 2 + 1j * (((5 * np.arange(n) + 1) % 7) - 3.0) / 4).reshape(shape)
+        rank = len(shape)
+        for axes in [c for r_ in range(1, rank + 1) for c in itertools.combinations(range(rank), r_)]:
+            for neg in (False, True):
+                ax_arg = tuple(x_ - rank for x_ in axes) if neg else axes
+                l2_axis = ax_arg[0] if len(ax_arg) == 1 else ax_arg
+                impl = _impl(lambda: float(F.L21Norm(l2_axis=l2_axis)(snp.array(a))))
+                mod = _model(model, "feval", fn="l21axes", cplx=True, shape=list(shape), axes=list(axes), x=fs2b(G.il(a, True)))
+                formula = float(np.sum(np.sqrt(np.sum(np.abs(a) ** 2, axis=axes))))
+                case = {"shape": list(shape), "axes": list(axes), "l2_axis": list(ax_arg), "cplx": True, "x": fs2b(G.il(a, True)), "stream": "exhaustive"}
+                ctx.case({k_: case[k_] for k_ in ("shape", "l2_axis", "stream")}, ("l21-exh", shape, ax_arg))
+                _check(ctx, "feval.l21axes", case, impl, mod, formula)
+                done += 1
+    ctx.count("l21axes:exhaustive small scope", done)
+    ctx.extra["l21_exhaustive_scope"] = f"{len(shapes)} shapes x all non-empty axes subsets x non-negative / negative axis numbers: {done} configurations"
+
+
+def run_huber_history(ctx, model, scico):
+    """history on one object: a HuberNorm is evaluated, its `delta` attribute is changed, and it is evaluated again (also
+    under jax.jit): the value must follow the current delta (lax.cond caches traced branches; fix 681c2a4)"""
+    import jax
+    import scico.functional as F
+    import scico.numpy as snp
+
+    rng = ctx.rng
+    for _ in range(ctx.n(16, 100)):
+        cplx = bool(rng.random() < 0.3)
+        sep = bool(rng.integers(2))
+        d1, d2 = G.pos_dyadic(rng), G.pos_dyadic(rng, hi=8.0)
+        shape = G.random_shape(rng, False)
+        a = G.dy(rng, shape, cplx)
+        f = F.HuberNorm(delta=d1, separable=sep)
+        x = snp.array(a)
+        first = _impl(lambda: float(f(x)))
+        if rng.random() < 0.5:
+            _ = _impl(lambda: float(jax.jit(f.__call__)(x)))
+        f.delta = d2
+        vals = [("eager", _impl(lambda: float(f(x)))), ("jit", _impl(lambda: float(jax.jit(lambda z: f(z))(x))))]
+        kind = "hubers" if sep else "hubern"
+        leaf2 = {"kind": kind, "delta": f2b(d2)}
+        mod = _model(model, "feval", fn=kind, cplx=cplx, delta=f2b(d2), x=G.arg_json(x, cplx))
+        formula = G.np_leaf(leaf2, [a])
+        f1 = G.np_leaf({"kind": kind, "delta": f2b(d1)}, [a])
+        case = {"huber-history": kind, "delta first": d1, "delta now": d2, "cplx": cplx, "shape": list(shape), "x": G.arg_json(x, cplx)}
+        ctx.case({k_: case[k_] for k_ in ("huber-history", "cplx", "shape")}, ("huber-history", kind, cplx, d1 != d2) if f1 != formula else None)
+        ctx.count("huber-history:" + kind)
+        if first[0] != "ok" or not common.close(first[1], f1, k=64, rtol=1e-8):
+            ctx.disagree("feval.huber_history.first", case, list(first), f1)
+        for how, impl in vals:
+            _check(ctx, "feval.huber_history." + how, case, impl, mod, formula)
+
+
 def run_dist(ctx, model, scico):
     import scico.functional as F
     import scico.numpy as snp
@@ -922,6 +986,8 @@ def correspond(ctx, model):
     _corpus(ctx, model, scico)
     run_base(ctx, model, scico)
     run_l21_axes(ctx, model, scico)
+    run_l21_exhaustive(ctx, model, scico)
+    run_huber_history(ctx, model, scico)
     run_l21_call(ctx, model, scico)
     run_tiny(ctx, model, scico)
     run_nuclear(ctx, model, scico)
